@@ -53,7 +53,19 @@ class Model:
 
     # -- engine interface
     def global_(self, name):
-        return self.globals.get(name)
+        if name in self.globals:
+            return self.globals[name]
+        # integer / bytes constants defined at module level are read from the real module of the repository under check
+        modname = getattr(self, "pymodule", None)
+        if modname:
+            import importlib
+
+            v = getattr(importlib.import_module(modname), name, None)
+            if isinstance(v, bool):
+                return None
+            if isinstance(v, int):
+                return IntV(z3.IntVal(v))
+        return None
 
     def attr(self, eng, st, path, name, node):
         key = f"{path}.{name}"
